@@ -665,21 +665,14 @@ func (in *Interp) allocSize(n *Term, esz int, what string) int64 {
 	if n.W < 64 {
 		n = in.st.Sext(n, 64)
 	}
+	neg0 := in.st.Slt(n, in.st.Const(0, 64))
+	if in.branch(neg0) {
+		in.goPanicRuntime("makeslice: len out of range")
+	}
 	if in.cfg.AllocCeiling > 0 && esz > 0 {
 		lim := in.st.Const(uint64(in.cfg.AllocCeiling/int64(esz)), 64)
-		over := in.st.Slt(lim, n)
-		if !over.IsConst() {
-			r, m := in.sol.Check(over, true, in.st.Vars)
-			in.out.Queries++
-			if r == Sat {
-				in.out.Model = m
-				in.implicitViolation("alloc-ceiling", fmt.Sprintf("%s: requested size can exceed the ceiling of %d bytes", what, in.cfg.AllocCeiling))
-			}
-			if r == Unknown {
-				in.out.Unknowns++
-			}
-			// continue on the in-bounds side
-			in.assertPC(in.st.BNot(over))
+		if in.branch(in.st.Slt(lim, n)) {
+			in.implicitViolation("alloc-ceiling", fmt.Sprintf("%s: requested size can exceed the ceiling of %d bytes", what, in.cfg.AllocCeiling))
 		}
 	}
 	neg := in.st.Slt(n, in.st.Const(0, 64))
